@@ -440,6 +440,7 @@ func runC09(c *Ctx) {
 	runRouterReadOnly(c, "R12")
 	runC09Round4(c)
 	runC09ValidateReadOnly(c)
+	runC09EntryForwards(c)
 }
 
 func mustFn(p *Prog, pk *packages.Package, T *types.Named, name string) *ssa.Function {
